@@ -35,7 +35,12 @@ RULE = ("malformed stream: a documented-valid parameter set for a random method 
         "singletons, rescaling_intervals=0, both probability spaces) x mutation rates over 28 orders of magnitude; "
         "~40% of all tree sequences of both streams carry gen.exotic decorations (extra flag bits, all nodes "
         "renumbered, mutations above roots, mutation-free sites, unknown mutation times, arbitrary allele states, "
-        "populations); numpy-typed scalars incl. numpy.bool_ and float32 in the pools; one priors object per "
+        "populations); on 50% of the exploration inputs the node and the mutation table independently get a "
+        "metadata state out of 12 (no schema empty / raw bytes; permissive JSON empty / some / all rows; strict "
+        "JSON requiring mn,vr empty / filled; struct codec with mn,vr fields empty / filled; struct with another "
+        "field empty / filled; struct without properties), every row decodable, x set_metadata in {absent, None, "
+        "True, False} x the three methods; numpy-typed scalars incl. numpy.bool_ and float32 in the pools; one "
+        "priors object per "
         "tree sequence reused across calls; distinct by content hash")
 ASSUME = ["the boolean tree-sequence facts handed to the model (no mutations, several trees, samples at "
           "time 0, unary nodes, prior builder accepts the ts) are computed by tskit / tsdate helper calls",
@@ -257,6 +262,8 @@ def diagnose_time_order(case, ts):
 
 def crash_sig(case, ts, r):
     fl = input_flags(case)
+    if case.get("meta"):
+        fl.append("meta=%s/%s" % tuple(case["meta"]))
     if ts.num_mutations == 0:
         fl.append("muts=0")
     elif all(m.edge == -1 for m in ts.mutations()):
@@ -271,7 +278,7 @@ def crash_sig(case, ts, r):
 # ------------------------------------------------------------------ oracle
 def oracle(ctx, case, ts, r, explore=False):
     must, amb, foreign = spec(case)
-    rp = {"case": case, "ts": K.gen.ts_tables_dict(ts),
+    rp = {"case": case, "ts": K.gen.ts_tables_dict(ts), "ts_meta": K.meta_dict(ts),
           "outcome": {k: v for k, v in r.items() if k != "result"}}
     shown = K.show_case(case)
     if r["kind"] == "exc":
@@ -381,6 +388,9 @@ def explore(ctx, n):
         ctx.case(dict(K.show_case(c), nodes=int(ts.num_nodes), trees=int(ts.num_trees), muts=int(ts.num_mutations),
                       outcome=r["kind"] if r["kind"] == "ok" else r["type"]),
                  nontrivial=True, kind="explore:" + c["ts_kind"].split(":")[1].split("+")[0] + ("/ok" if r["kind"] == "ok" else "/" + r["type"]))
+        if c.get("meta"):
+            ctx.tally("explore:meta:nodes=%s" % c["meta"][0])
+            ctx.tally("explore:meta:mutations=%s" % c["meta"][1])
         if "+" in c["ts_kind"]:
             ctx.tally("explore:exotic")
         oracle(ctx, c, ts, r, explore=True)
@@ -396,7 +406,7 @@ def corpus(ctx):
         if not fn.endswith(".json"):
             continue
         data = json.load(open(os.path.join(d, fn)))
-        ts = K.gen.ts_from_dict(data["ts"])
+        ts = K.meta_from_dict(K.gen.ts_from_dict(data["ts"]), data.get("ts_meta"))
         c = data["case"]
         K.finalize_case(c, ts)
         r = K.call(c, ts)
@@ -431,7 +441,7 @@ def replay(ctx, data):
     case = rp.get("case")
     if case is None:
         return True
-    ts = K.gen.ts_from_dict(rp["ts"])
+    ts = K.meta_from_dict(K.gen.ts_from_dict(rp["ts"]), rp.get("ts_meta"))
     K.finalize_case(case, ts)
     r = K.call(case, ts)
     before = len(ctx.oracle_fails)
